@@ -447,7 +447,7 @@ func (s *isim) Next(rng *simcore.RNG) simcore.Op {
 		return simcore.Op{"a": "fsub", "q": condsToOps(cs), "cap": []int{1, 2, 100}[rng.Intn(3)]}
 	default:
 		b := genPoisonBase(rng, false, "tm.event")
-		return simcore.Op{"a": "psub", "base": b.op(), "m": 6, "cap": []int{1, 100}[rng.Intn(2)]}
+		return simcore.Op{"a": "psub", "base": b.op(), "m": 6, "cap": canaryCap}
 	}
 }
 
